@@ -156,6 +156,15 @@ def chain_cases(chk, count, how1s, how2s):
 						B = {"names": ["cust", "rid"], "cols": [list(custs), [f"B{i}" for i in range(len(custs))]]}
 						C = {"names": ["who", "cid"], "cols": [list(who), [f"C{i}" for i in range(len(who))]]}
 						chk.case("chain", {"A": A, "B": B, "C": C, "how1": how1, "how2": list(dict.fromkeys(how2s)), "key2": key2, "key_mode2": key_mode2}, "chain-directed")
+	# directed: a key column of mixed kinds (ints and bools typed int; ints and texts typed object) whose SURVIVING rows are of one kind - the next join is keyed on it
+	for how1 in dict.fromkeys(how1s):
+		for ids, custs, who in (([True, 7, False, 9], [1, 0, 5], [True, False, True]), ([1, True, 0, 2], [True, False], [False, True]), ([True, 7, False], [True, False, 7], [7, 1]), ([2, True, 3], [2, 3, 4], [2, 3, 3])):
+			for key2 in ("id", "cust"):
+				for key_mode2 in ("name", "vector"):
+					A = {"names": ["id", "lid"], "cols": [list(ids), [f"A{i}" for i in range(len(ids))]]}
+					B = {"names": ["cust", "rid"], "cols": [list(custs), [f"B{i}" for i in range(len(custs))]]}
+					C = {"names": ["who", "cid"], "cols": [list(who), [f"C{i}" for i in range(len(who))]]}
+					chk.case("chain", {"A": A, "B": B, "C": C, "how1": how1, "how2": list(dict.fromkeys(how2s)), "key2": key2, "key_mode2": key_mode2}, "chain-directed-mixed-kinds")
 	for _ in range(count):
 		dom = rng.choice([[1, 2, 3, 4, None], [1, 2, 3, 4, None], [1, True, 0, False, 2, None], [True, False, 7, 9]])     # mixed int / bool columns: the surviving rows may all be bool
 
